@@ -1,7 +1,9 @@
 package keeper
 
 import (
+	"bytes"
 	"context"
+	"slices"
 
 	"cosmossdk.io/collections"
 	errorsmod "cosmossdk.io/errors"
@@ -28,9 +30,19 @@ func (k Keeper) Lock(ctx context.Context, reqs []*goattypes.LockRequest) error {
 		updates[req.Validator] = updates[req.Validator].Add(coin)
 	}
 
+	// apply the aggregated updates in a deterministic order: when more than
+	// one of them fails, every node has to report the same error
+	validators := make([]common.Address, 0, len(updates))
+	for validator := range updates {
+		validators = append(validators, validator)
+	}
+	slices.SortFunc(validators, func(a, b common.Address) int {
+		return bytes.Compare(a[:], b[:])
+	})
+
 	sdkctx := sdktypes.UnwrapSDKContext(ctx)
-	for validator, coins := range updates {
-		if err := k.lock(sdkctx, validator, coins); err != nil {
+	for _, validator := range validators {
+		if err := k.lock(sdkctx, validator, updates[validator]); err != nil {
 			return err
 		}
 	}
